@@ -448,6 +448,9 @@ func extSource(c *spec.Case, e *spec.Ext) string {
 			}
 		}
 	}
+	for _, v := range e.Vars {
+		fmt.Fprintf(&sb, "var %s = %s(%d)\n\n", v.Name, strings.ToUpper(mk(v.Type)[:1])+mk(v.Type)[1:], v.H)
+	}
 	if hasMethod {
 		sb.WriteString("// FactoryT's methods are used as providers through method values of Factory.\ntype FactoryT struct{}\n\nvar Factory FactoryT\n\n")
 	}
